@@ -181,6 +181,15 @@ func (c *Ctx) ruleC10RulesWithBody() {
 		}
 	}
 	if n == 0 {
+		// not written out in one function: ask the abstract evaluation of the handler
+		if k, bad, und := c.rulesBeforeExpansionE8(); und == "" && k > 0 {
+			if bad == "" {
+				r.Ok("C10-RULES-WITH-BODY", "handler of PASTE (abstract evaluation)", fmt.Sprintf("%d path(s) expand a body taken from the macro table, each after the rules of that body were collected", k), "")
+			} else {
+				r.Bad("C10-RULES-WITH-BODY", "handler of PASTE (abstract evaluation)", bad+": an enum used by the pasted directives is unknown at that paste site", "")
+			}
+			return
+		}
 		r.Undecided("C10-RULES-WITH-BODY", "sites", "no expansion of a macro body found", "")
 	}
 }
@@ -681,6 +690,21 @@ func (c *Ctx) ruleC10Undefined() {
 		r.Undecided("C10-UNDEFINED-REJECTED", "anchor", "processPasteDirective or macro table not found", "")
 		return
 	}
+	// decided on the abstract evaluation of the handler (helpers inlined); the syntactic reading below is the fallback
+	// when the evaluation cannot tell
+	if missOK, emptyOK, detail, und := c.undefinedRejectedE8(); und == "" {
+		if missOK {
+			r.Ok("C10-UNDEFINED-REJECTED", "miss branch", "every path on which the name is missing in the macro table returns an error (abstract evaluation of the handler)", c.pos(f.Decl.Pos()))
+		} else {
+			r.Bad("C10-UNDEFINED-REJECTED", "miss branch", detail, c.pos(f.Decl.Pos()))
+		}
+		if emptyOK {
+			r.Ok("C10-UNDEFINED-REJECTED", "empty name", "the table is only asked for a name found non-empty, and an empty name returns an error", c.pos(f.Decl.Pos()))
+		} else {
+			r.Bad("C10-UNDEFINED-REJECTED", "empty name", detail, c.pos(f.Decl.Pos()))
+		}
+		return
+	}
 	pk := f.Pkg
 	// comma-ok lookup
 	var okVar types.Object
@@ -741,48 +765,69 @@ func (c *Ctx) ruleC10MacroRemoved() {
 	}
 	pk := f.Pkg
 	macroConst := c.enumConst("Macro")
-	var macroIf *ast.IfStmt
-	ast.Inspect(f.Decl.Body, func(n ast.Node) bool {
-		if ifs, ok := n.(*ast.IfStmt); ok {
-			if be, ok := ast.Unparen(ifs.Cond).(*ast.BinaryExpr); ok && be.Op == token.EQL && constObj(pk, be.Y) == macroConst && macroConst != nil {
-				macroIf = ifs
+	// form-independent: in the loop over the list, (1) the registration and the removal of the element are reached only
+	// with "<element>.Type() == directive.Macro" established, and an element known to be a MACRO never reaches the end
+	// of the round without both; (2) on every way round the loop the index goes up by one without a removal, or one
+	// element is removed at the index and the index stays (nothing skipped, nothing visited twice)
+	{
+		typeM := c.P.LookupFunc("directive", "Directive.Type")
+		var loop *ast.ForStmt
+		ast.Inspect(f.Decl.Body, func(n ast.Node) bool {
+			if fs, ok := n.(*ast.ForStmt); ok && loop == nil {
+				loop = fs
 			}
+			return true
+		})
+		var lb *loopBalance
+		if loop != nil {
+			lb = balanceOfLoop(pk, f.Decl.Body, loop)
 		}
-		return true
-	})
-	if macroIf == nil {
-		r.Bad("C10-MACRO-CONTRIBUTES-NOTHING", "removal", "collectMacro has no `if <elem>.Type() == directive.Macro` branch", c.pos(f.Decl.Pos()))
-	} else {
-		removes, dec, adds := false, false, false
-		ast.Inspect(macroIf.Body, func(n ast.Node) bool {
+		isMacro := func(cond ast.Expr, holds bool) bool {
+			be, ok := ast.Unparen(cond).(*ast.BinaryExpr)
+			if !ok || (be.Op != token.EQL && be.Op != token.NEQ) || macroConst == nil {
+				return false
+			}
+			x, y := be.X, be.Y
+			if constObj(pk, x) == macroConst {
+				x, y = y, x
+			}
+			if constObj(pk, y) != macroConst {
+				return false
+			}
+			tc, ok := unalias(f, x).(*ast.CallExpr)
+			if !ok || typeM == nil || callee(pk, tc) != typeM {
+				return false
+			}
+			return (be.Op == token.EQL) == holds
+		}
+		cf := c.cfgOf(f)
+		var addCall, removal ast.Node
+		ast.Inspect(f.Decl.Body, func(n ast.Node) bool {
 			switch x := n.(type) {
-			case *ast.AssignStmt:
-				if len(x.Rhs) == 1 {
-					if call, ok := ast.Unparen(x.Rhs[0]).(*ast.CallExpr); ok {
-						if id, ok := call.Fun.(*ast.Ident); ok && id.Name == "append" && call.Ellipsis.IsValid() && len(call.Args) == 2 {
-							_, s1 := ast.Unparen(call.Args[0]).(*ast.SliceExpr)
-							_, s2 := ast.Unparen(call.Args[1]).(*ast.SliceExpr)
-							if s1 && s2 && accessPath(pk, x.Lhs[0]) != "" {
-								removes = true
-							}
-						}
-					}
-				}
-			case *ast.IncDecStmt:
-				if x.Tok == token.DEC {
-					dec = true
-				}
 			case *ast.CallExpr:
 				if cal := callee(pk, x); cal != nil && cal.Name() == "addMacro" {
-					adds = true
+					addCall = x
+				}
+			case *ast.AssignStmt:
+				if lb != nil && len(x.Lhs) == 1 && len(x.Rhs) == 1 && accessPath(pk, x.Lhs[0]) == lb.list && isRemovalAt(pk, x.Rhs[0], lb.list, lb.index) {
+					removal = x
 				}
 			}
 			return true
 		})
-		if removes && dec && adds {
-			r.Ok("C10-MACRO-CONTRIBUTES-NOTHING", "removal", "MACRO elements are registered, cut out of the list and the index is stepped back", c.pos(macroIf.Pos()))
-		} else {
-			r.Bad("C10-MACRO-CONTRIBUTES-NOTHING", "removal", fmt.Sprintf("registered=%v removed=%v index-corrected=%v", adds, removes, dec), c.pos(macroIf.Pos()))
+		switch {
+		case loop == nil || lb == nil:
+			r.Bad("C10-MACRO-CONTRIBUTES-NOTHING", "removal", "collectMacro has no index loop over the directive list", c.pos(f.Decl.Pos()))
+		case addCall == nil || removal == nil:
+			r.Bad("C10-MACRO-CONTRIBUTES-NOTHING", "removal", fmt.Sprintf("registered=%v removed=%v: a MACRO definition must be put into the macro table and cut out of the directive list", addCall != nil, removal != nil), c.pos(loop.Pos()))
+		case !cf.establishedAt(addCall, isMacro, nil) || !cf.establishedAt(removal, isMacro, nil):
+			r.Bad("C10-MACRO-CONTRIBUTES-NOTHING", "removal", "the registration or the removal is reached for an element that is not known to be a MACRO definition", c.pos(loop.Pos()))
+		case !cf.dominatedBy(removal, addCall):
+			r.Bad("C10-MACRO-CONTRIBUTES-NOTHING", "removal", "an element can be cut out of the list without having been registered as a macro", c.pos(loop.Pos()))
+		case lb.balanced() != "":
+			r.Bad("C10-MACRO-CONTRIBUTES-NOTHING", "removal", "the walk over the list while elements are removed is off: "+lb.balanced(), c.pos(loop.Pos()))
+		default:
+			r.Ok("C10-MACRO-CONTRIBUTES-NOTHING", "removal", "MACRO elements - and only they - are registered and then cut out of the list; on every way round the loop the index advances by one or one element is removed and the index stays", c.pos(loop.Pos()))
 		}
 	}
 	if cc := c.fn("core", "JApiCore.compileCore"); cc != nil {
